@@ -100,6 +100,10 @@ func profile(name string) Profile {
 	return p
 }
 
+// extensions: with and without a leading dot, with inner dots, ending in .gz (with compression off the
+// files are NOT compressed whatever their name says), empty
+var extDom = []string{".dat", ".obj.v1", "", "dat", "-v1.json", ".gz", ".json.gz", ".dat", ""}
+
 var strDom = []string{"", "a", "A", "b", "ab", "aB", "Ab", "z", "ä", "Ä", "ß", "ı", "ǅ", "a.b", "[", "a+"}
 var aDom = []int64{-2, -1, 0, 1, 2, 3, 4, 5, math.MinInt64, math.MaxInt64, 1<<53 + 1, -(1<<53 + 1)}
 var bDom = []int64{-128, -1, 0, 1, 127}
@@ -131,7 +135,7 @@ func genCfg(r *rand.Rand, p Profile) Cfg {
 		c.Compress = pct(r, 25)
 		c.Lower = pct(r, 15)
 		if pct(r, 20) {
-			c.Ext = []string{".dat", ".obj.v1", ""}[r.Intn(3)]
+			c.Ext = extDom[r.Intn(len(extDom))]
 		}
 	case "anyasync":
 		c.Cache = pct(r, 40)
@@ -153,7 +157,7 @@ func genCfg(r *rand.Rand, p Profile) Cfg {
 		c.Compress = pct(r, 25)
 		c.Lower = pct(r, 15)
 		if pct(r, 20) {
-			c.Ext = []string{".dat", ".obj.v1", ""}[r.Intn(3)]
+			c.Ext = extDom[r.Intn(len(extDom))]
 		}
 		if pct(r, 25) {
 			c.Async = true
@@ -738,6 +742,12 @@ func (e *Exec) GenOp(r *rand.Rand, p Profile) []string {
 		}
 		return sweep("repair", "control")
 	case "recreate":
+		if (p.Name == "C17" || p.Name == "C10") && pct(r, 15) {
+			// asynchronous writes switched off through a non-nil Async{Enable:false}, then on again: the
+			// routine must be running again: a write made then reaches the disk within the timeout
+			f := genRec(r, e.cfg)
+			return []string{"create cache=1 async=0 astruct=1", "tick", "create cache=1 async=1 thr=3 to=1", "ins " + f.String(), "tick", "tick", "fs", "count", "all"}
+		}
 		// Create again: same schema, or a switch of cache / async settings
 		kv := fmt.Sprintf("cache=%d", r.Intn(2))
 		if (p.Name == "C17" || p.Name == "C10" || p.Name == "C01") && pct(r, 60) {
@@ -879,8 +889,9 @@ func (e *Exec) GenOp(r *rand.Rand, p Profile) []string {
 			return []string{fmt.Sprintf("%s %d", []string{"corrupt", "truncfile"}[r.Intn(2)], u)}
 		}
 	case "commit":
-		if u := e.pickLive(r); u != 0 && pct(r, 30) {
-			// single-object flush of an object holding the last accepted value
+		if u := e.pickLive(r); u != 0 && pct(r, 30) && !e.spec.off && e.spec.crashCtx == "" {
+			// single-object flush of an object holding the last accepted value (known only while the
+			// harness's own map is in step: no fault, crash or outside modification so far)
 			if f, ok := e.spec.live[u]; ok {
 				f.U = u
 				return []string{[]string{"flush1", "flush1c"}[r.Intn(2)] + " " + f.String()}
